@@ -90,8 +90,8 @@ Print Assumptions C14_every_role.
 Theorem C14_include_levels : forall anc locals nm d v sd sv ch ts,
   load anc locals (RIncl nm d v sd sv ch) = Some ts ->
   exists n lvi sn lvs,
-    resolve_level anc locals nm d v = Some (n, lvi) /\
-    resolve_level (lvi :: anc) [] None sd sv = Some (sn, lvs) /\
+    resolve_level anc locals nm (decode d) (decode v) = Some (n, lvi) /\
+    resolve_level (lvi :: anc) [] None (decode sd) (decode sv) = Some (sn, lvs) /\
     forall a n' hid p, In (a, n', hid, p) (forest_nodes anc ts) ->
       exists roles, p = roles ++ lvs :: lvi :: anc.
 Proof. exact include_levels. Qed.
@@ -173,6 +173,43 @@ Theorem C14_iterator_local : forall anc locals nm d v n lv k x,
   assoc k locals = Some x -> assoc k (l_vars lv) = Some x.
 Proof. exact iterator_local. Qed.
 Print Assumptions C14_iterator_local.
+
+(* ---- defaults: / vars: as written (rolebase.go kvStoreUnmarshalYAMLWithTags) ---- *)
+
+(* every syntax in which a definition can be written is a definition: a plain scalar, the
+   annotated form !public {value: ...} - the EMPTY text included in both - and the annotated form
+   without a value (the empty string, as coded); nothing else is *)
+Theorem C14_written_forms : forall v,
+  entry_def (WPlain v) = Some v /\ entry_def (WPublic (Some v)) = Some v /\
+  entry_def (WPublic None) = Some (VLit []) /\ entry_def WOther = None.
+Proof. intro v. repeat split. Qed.
+Print Assumptions C14_written_forms.
+
+Theorem C14_written_definition : forall (w : wmap) k e v,
+  assoc k w = Some e -> entry_def e = Some v -> assoc k (decode w) = Some v.
+Proof. exact written_definition. Qed.
+Print Assumptions C14_written_definition.
+
+Theorem C14_unwritten_undefined : forall (w : wmap) k,
+  assoc k w = None -> assoc k (decode w) = None.
+Proof. exact unwritten_undefined. Qed.
+Print Assumptions C14_unwritten_undefined.
+
+(* a literal written in a role's block in any defining form - the empty text included - is the
+   role's own default (var), hence by C14_empty_defines / C14_precedence what every lower-ranking
+   source loses against *)
+Theorem C14_written_literal_in_defaults : forall anc locals nm d v n lv k e s,
+  resolve_level anc locals nm (decode d) (decode v) = Some (n, lv) ->
+  assoc k d = Some e -> entry_def e = Some (VLit s) -> assoc k (l_defaults lv) = Some s.
+Proof. exact written_literal_in_defaults. Qed.
+Print Assumptions C14_written_literal_in_defaults.
+
+Theorem C14_written_literal_in_vars : forall anc locals nm d v n lv k e s,
+  resolve_level anc locals nm (decode d) (decode v) = Some (n, lv) ->
+  assoc k v = Some e -> entry_def e = Some (VLit s) -> assoc k locals = None ->
+  assoc k (l_vars lv) = Some s.
+Proof. exact written_literal_in_vars. Qed.
+Print Assumptions C14_written_literal_in_vars.
 
 (* ---- iterator ranges (iteratorrole.go expandTemplate, iteratorrange.go) ---- *)
 
@@ -279,14 +316,14 @@ Example C14_nonvacuous :
   assoc [100] (consolidated p) = None /\
   resolve_level [parent; env] [] (Some a) [(c, VRef b)] [(b, VRef c)] =
     Some ([110], mkLevel [(c, [121])] [(b, [121])] []) /\
-  (exists vs, run_tree env (RRole None [(a, VLit [])] []
-                              [RIter [105] (IList [VLit [48]; VLit [49]]) (RRole (Some [105]) [] [(b, VRef [105])] [])])
+  (exists vs, run_tree env (RRole None [(a, WPublic (Some (VLit [])))] []
+                              [RIter [105] (IList [VLit [48]; VLit [49]]) (RRole (Some [105]) [] [(b, WPlain (VRef [105]))] [])])
                        [([0; 1], MSet a [122])] = Some vs /\ length vs = 3%nat) /\
   (* an iterated include role with a default of its own, under a root and an environment that
      define the same keys: the leaf of the sub-workflow sees the include role's values *)
-  (exists vs, run_tree env (RRole None [([100], VLit [121])] [([105], VLit [122])]
-                              [RIter [105] (IList [VLit [48]]) (RIncl None [([100], VLit [120])] [] [] []
-                                                         [RRole None [] [(b, VRef [100])] []])])
+  (exists vs, run_tree env (RRole None [([100], WPlain (VLit [121]))] [([105], WPublic (Some (VLit [122])))]
+                              [RIter [105] (IList [VLit [48]]) (RIncl None [([100], WPublic (Some (VLit [120])))] [] [] []
+                                                         [RRole None [] [(b, WPlain (VRef [100]))] []])])
                        [] = Some vs /\
               exists w, nth_error vs 2 = Some w /\ w_addr w = [0; 0; 0] /\
                         assoc [100] (w_stack w) = Some [120] /\ assoc b (w_stack w) = Some [120] /\
